@@ -17,7 +17,8 @@ Kernels == <<"toeplitz", "sym_toeplitz", "toeplitz_getitem", "toeplitz_matmul", 
 Sizes == 1..4
 Bs == << <<>>, <<2>>, <<2, 1>>, <<1, 3>> >>
 \* batch pairs (kernel data, rhs) that broadcast
-BPairs == << <<<<>>, <<>>>>, <<<<2>>, <<2>>>>, <<<<2>>, <<>>>>, <<<<>>, <<2>>>>, <<<<2, 1>>, <<3>>>>, <<<<3>>, <<2, 1>>>> >>
+BPairs == << <<<<>>, <<>>>>, <<<<2>>, <<2>>>>, <<<<2>>, <<>>>>, <<<<>>, <<2>>>>, <<<<2, 1>>, <<3>>>>, <<<<3>>, <<2, 1>>>>,
+            <<<<2, 3>>, <<2, 3>>>>, <<<<3, 2>>, <<>>>> >>
 RhsKinds == <<"vector", "matrix">>
 
 Init ==
@@ -75,9 +76,12 @@ Eval ==
           [] k \in {"qr", "pinverse"} ->
                \* tall / square / fat integer matrices with full rank: identity-dominated
                LET rws == IF case.v = 1 THEN n + (sd % 2) ELSE n cls == IF case.v = 1 THEN n ELSE n + (sd % 2)
-                   A == T_Add(G_Small(bk \o <<rws, cls>>, sd), T_Make(bk \o <<rws, cls>>, LAMBDA idx :
+                   A0 == T_Add(G_Small(bk \o <<rws, cls>>, sd), T_Make(bk \o <<rws, cls>>, LAMBDA idx :
                             IF idx[Len(idx) - 1] = idx[Len(idx)] THEN 5 ELSE 0))
-               IN Fmt([a |-> A], A)
+                   \* every third case has an exactly zero column (an exactly zero pivot: the stabilisation must keep the result finite)
+                   zc == sd % 3 = 0
+                   A == IF zc THEN T_Make(A0.shape, LAMBDA idx : IF idx[Len(idx)] = (sd % cls) THEN 0 ELSE T_At(A0, idx)) ELSE A0
+               IN Fmt([a |-> A, zero_col |-> zc], A)
 Next == Eval
 Spec == Init /\ [][Next]_vars
 =============================================================================
